@@ -44,8 +44,6 @@ def witnesses : List Witness := [
     PrefixObjectNames.wS "" (.map (.ref "p" "A" freshMeta) wStrTy freshMeta)⟩,
   ⟨"C15_trim_enum_values_counterexample_offpath", "trim_enum_values/enums-outside-visitor-positions",
     [.trimEnumValues], TrimEnumValues.wS⟩,
-  ⟨"C15_constant_to_enum_counterexample", "constant_to_enum/drops-meta", [.constantToEnum ConstantToEnum.wP], ConstantToEnum.wSchemas⟩,
-  ⟨"C15_hint_object_counterexample", "hint_object/nil-hints-panic",
-    [.retypeObject HintObject.wRetype, .hintObject HintObject.wP], HintObject.wS0⟩ ]
+  ⟨"C15_constant_to_enum_counterexample", "constant_to_enum/drops-meta", [.constantToEnum ConstantToEnum.wP], ConstantToEnum.wSchemas⟩ ]
 
 end Cog.Xform
